@@ -1505,6 +1505,26 @@ def macro_generated():
         return fn
 
     body = ("            let __f = sim::enter($id, $recv, &[$p, dup]);\n            sim::user_alloc(&__f);\n            $pause\n            sim::exit(__f, &[])\n")
+    # single fns / module fns: fn name, trait name and deps parameter are written in the macro
+    # body, only one parameter name comes from the macro's caller (a caller-provided fn name does
+    # not compile even on the unchanged tree: the generated `self` tokens disagree in hygiene)
+    f1 = reg("mac_fn", False, "fn", ("C01", "C14"))
+    f2 = reg("mac_afn", True, "fn", ("C01", "C14"))
+    f3 = reg("mac_nd", False, "unmock", ("C01", "C11"), unmock=True)
+    f3.deps = ("nodeps", [])
+    f4 = reg("mac_mfn", False, "mod", ("C01",))
+    f4.container = "mac_mod"
+    text += (f"{cfg}macro_rules! mk_mac_fns {{\n    ($p:ident) => {{\n"
+             f"        #[entrait(pub MacFn)]\n        pub fn mac_fn(deps: &impl F0, $p: u64, dup: u64) -> u64 {{\n"
+             f"            let __f = sim::enter({f1.fn_id}, sim::addr(deps), &[$p, dup]);\n            sim::user_alloc(&__f);\n            sim::sync_point(&__f);\n            sim::exit(__f, &[])\n        }}\n"
+             f"        #[entrait(pub MacAfn)]\n        pub async fn mac_afn(deps: &impl Af0, $p: u64, dup: u64) -> u64 {{\n"
+             f"            let __f = sim::enter({f2.fn_id}, sim::addr(deps), &[$p, dup]);\n            sim::user_alloc(&__f);\n            sim::pause(&__f).await;\n            sim::exit(__f, &[])\n        }}\n"
+             f"        #[entrait(pub MacNd, no_deps, mock_api = MacNdMock, export)]\n        pub fn mac_nd($p: u64, dup: u64) -> u64 {{\n"
+             f"            let __f = sim::enter({f3.fn_id}, 0, &[$p, dup]);\n            sim::user_alloc(&__f);\n            sim::sync_point(&__f);\n            sim::exit(__f, &[])\n        }}\n"
+             f"        #[entrait(pub MacMod)]\n        pub mod mac_mod {{\n            use super::*;\n            pub fn mac_mfn(deps: &impl F0, $p: u64, dup: u64) -> u64 {{\n"
+             f"                let __f = sim::enter({f4.fn_id}, sim::addr(deps), &[$p, dup]);\n                sim::user_alloc(&__f);\n                sim::sync_point(&__f);\n                sim::exit(__f, &[])\n            }}\n        }}\n"
+             f"    }};\n}}\n{cfg}mk_mac_fns!(dup);\n")
+    unmock_traits.append(("MacNd", False))
     # entraited traits: Self and ref delegation
     t1 = reg("mac_p", False, "trait", ("C06", "C14"), pair=True)
     t2 = reg("mac_r", False, "trait", ("C06",), pair=True)
